@@ -44,6 +44,9 @@ struct Bytes {
   struct Span { size_t off, esz; long n; };
   Span dual{0, 8, 0}, primal{0, 8, 0};
   std::vector<Span> sufspans;
+  // text only: the value lines (offset, length without the newline, which vector)
+  struct VLine { size_t off, len; const char *which; };
+  std::vector<VLine> vlines;
 };
 // number of elements of a span that are completely inside the first `size` bytes
 static long avail_of(const Bytes::Span &sp, size_t size) {
@@ -120,9 +123,9 @@ static Bytes to_text(const SolFile &f) {
     if (f.vbtol) put_num(o.b, f.vbtolv);
     o.mark_bound();
   }
-  for (size_t i = 0; i < f.dual.size(); ++i) { put_num(o.b, f.dual[i]); if (i == 0) o.bounds.push_back(o.b.size() - 3); }
+  for (size_t i = 0; i < f.dual.size(); ++i) { size_t st = o.b.size(); put_num(o.b, f.dual[i]); o.vlines.push_back({st, o.b.size() - st - 1, "dual"}); if (i == 0) o.bounds.push_back(o.b.size() - 3); }
   o.mark_bound();
-  for (size_t i = 0; i < f.primal.size(); ++i) { put_num(o.b, f.primal[i]); if (i == 0) o.bounds.push_back(o.b.size() - 3); }
+  for (size_t i = 0; i < f.primal.size(); ++i) { size_t st = o.b.size(); put_num(o.b, f.primal[i]); o.vlines.push_back({st, o.b.size() - st - 1, "primal"}); if (i == 0) o.bounds.push_back(o.b.size() - 3); }
   o.mark_bound();
   if (f.hasobjno) { o.b += "objno " + std::to_string(f.objno) + " " + std::to_string(f.code) + "\n"; o.bounds.push_back(o.b.size() - 3); o.mark_bound(); }
   for (auto &s : f.sufs) {
@@ -134,6 +137,7 @@ static Bytes to_text(const SolFile &f) {
     for (auto &v : s.vals) {
       char t[64];
       if (s.real) snprintf(t, sizeof t, "%d %.17g\n", v.first, v.second); else snprintf(t, sizeof t, "%d %d\n", v.first, (int)v.second);
+      o.vlines.push_back({o.b.size(), strlen(t) - 1, "suf"});
       o.b += t;
     }
     o.mark_bound();
@@ -391,6 +395,24 @@ int main(int argc, char **argv) {
         if (fmt == 2) G_AVAIL = avail_json(b, cuts[ci]);
         run_mut(base, fmt, t, "cut@" + std::to_string(cuts[ci]), "trunc:sec" + std::to_string(std::min<size_t>(sec, 12)));
         G_AVAIL = "{\"dual\":-1,\"primal\":-1,\"suf\":[]}";
+      }
+      if (fmt == 1) {
+        // a value line that is not a number and carries printf conversion specifiers (a reader that passes file
+        // bytes on as a format string reads or writes through garbage pointers): first line of each vector
+        static const char *FMT[] = {"%s%s%s%s%s%s%s%s%s%s%s%s", "x %n%n%n%n%n%n%n%n", "%d %d %d", "1.5%n", "%999999999s", "%*c%*c%n"};
+        const char *seen[3] = {nullptr, nullptr, nullptr}; int ns = 0;
+        for (auto &vl : b.vlines) {
+          bool dup = false;
+          for (int q = 0; q < ns; ++q) dup = dup || !strcmp(seen[q], vl.which);
+          if (dup || ns >= 3) continue;
+          seen[ns++] = vl.which;
+          for (const char *fs : FMT) {
+            Bytes t = b;
+            t.b = b.b.substr(0, vl.off) + fs + b.b.substr(vl.off + vl.len);
+            one_read(t.b, f0, "text", std::string("fmtline@") + vl.which, std::string("fmt:") + vl.which,
+                     (int)f0.nvars, (int)f0.ncons, "equal", ALL, (int)k);
+          }
+        }
       }
       if (fmt == 2) {
         // the file ends inside / just before the last value of a vector: read with the true sizes by a handler that
